@@ -8,7 +8,12 @@
  * VALGRIND_COUNT_ERRORS is polled after every operation.
  *
  * cases: [0, nscopes)   closure scopes (one tree type / pool / key count each)
- *        [nscopes, ...) seeded random histories
+ *        then ndeep()   deep degenerate plain trees (modes order, clear)
+ *        then nbig()    large monotone fills of the red-black tree (modes order, rb)
+ *        then           seeded random histories
+ * In all of them every second hinted insert (every fourth in the random histories) uses a hint that is not from the
+ * last find (hint_batch), and in mode order every second K_FOREACH and one traversal per direction in every closure
+ * state has a visitor that makes read-only calls on the trees itself (reent_action).
  *
  * The tree type is a property of the case (closure scope or random draw); in
  * mode "rb" every case is a red-black tree.
@@ -422,11 +427,16 @@ struct trav {
     int t, rev, n, stop_at, stop_val, stopped;
     int npre, nmid, npost, nleaf, lastkey, have_last;
 };
-static int visit_cb(const void *ev, cstl_bintree_visit_order_t ord, void *p)
+/* read-only re-entrancy: the visitor of the traversal that is running (cur_trav) makes read-only calls on the same
+ * tree and on the other tree at the callback indices of the plan (see reent_action below) */
+static struct trav *cur_trav;
+static struct { int on, at, gap, left, done; unsigned salt; } reent;
+static void reent_action(const struct trav *w, const struct elem *x);
+static inline __attribute__((always_inline)) void visit_checks(struct trav *w, struct elem *x, cstl_bintree_visit_order_t ord)
 {
-    struct trav *w = p;
-    struct elem *x = (struct elem *)ev;
     int leaf;
+    VRT_CHECK(w == cur_trav, TK("foreach.priv"),
+              "visitor called with priv %p, not the one passed to the traversal that is running", (void *)w);
     VRT_CHECK(!w->stopped, TK("foreach.continued-after-stop"),
               "%s traversal made callback #%d after the visitor returned %d at #%d", w->rev ? "REV" : "FWD",
               w->n, w->stop_val, w->stop_at);
@@ -466,6 +476,23 @@ static int visit_cb(const void *ev, cstl_bintree_visit_order_t ord, void *p)
         }
         w->lastkey = x->key; w->have_last = 1;
     }
+}
+static int visit_cb(const void *ev, cstl_bintree_visit_order_t ord, void *p)
+{
+    struct trav *w = p;
+    visit_checks(w, (struct elem *)ev, ord);
+    if (w->n++ == w->stop_at) { w->stopped = 1; return w->stop_val; }
+    return 0;
+}
+/* the same visitor, making the read-only calls of the plan (a function of its own: the plain one is the hottest code here) */
+static int visit_reent_cb(const void *ev, cstl_bintree_visit_order_t ord, void *p)
+{
+    struct trav *w = p;
+    visit_checks(w, (struct elem *)ev, ord);
+    if (reent.left > 0 && w->n >= reent.at && (w->n - reent.at) % reent.gap == 0) {
+        reent.left--;
+        reent_action(w, (const struct elem *)ev);
+    }
     if (w->n++ == w->stop_at) { w->stopped = 1; return w->stop_val; }
     return 0;
 }
@@ -481,7 +508,13 @@ static int do_foreach(int t, int rev, int stop_at, int stop_val)
     OP_BEGIN("foreach");
     vrt_state(stop_at < 0 ? "full" : "early-stop");
     VRT_OP4(is_rb ? "rbtree.foreach" : "bintree.foreach", "t%ld dir%ld stop@%ld val%ld", t, rev, stop_at, stop_val);
-    r = t_foreach(t, visit_cb, &w, rev);
+    cur_trav = &w;
+    r = t_foreach(t, reent.on ? visit_reent_cb : visit_cb, &w, rev);
+    cur_trav = NULL;
+    if (reent.on && reent.done > 0) {
+        /* everything below is demanded of this traversal exactly as of an undisturbed one */
+        if (w.stopped) VRT_COUNT("reent.outer.early-stop"); else VRT_COUNT("reent.outer.completed");
+    }
     if (rev) VRT_COUNT("op.foreach.rev"); else VRT_COUNT("op.foreach.fwd");
     if (w.stopped) {
         VRT_CHECK(r == stop_val, TK("foreach.stop-value"),
@@ -505,6 +538,13 @@ static int do_foreach(int t, int rev, int stop_at, int stop_val)
 /* every callback index is paired, over the states of a run, with every special value (-1, 1, +-2, even values, values that
  * vanish in narrow fields, the ends of int): the salt moves on with every traversal of the case */
 static int stop_value(int s) { return vrt_stop_value((unsigned)s * 31u + 7u * vrt_case_tick()); }
+/* well-mixed bits of the per-case counter: which variant of a call sequence comes next (a pure function of the case) */
+static unsigned tick_hash(void)
+{
+    unsigned h = vrt_case_tick() * 2654435761u;
+    h ^= h >> 15; h *= 2246822519u; h ^= h >> 13;
+    return h;
+}
 
 /* ---- structural walker over the header-visible links ---- */
 struct wk { int t, count, maxd, rules, bst; uint32_t stamp; };
@@ -721,13 +761,245 @@ static void check_par(int t, const void *par, const char *what)
     }
 }
 
+/* one read-only find outside the op alphabet (hint batches, calls from inside a visitor); checked like any other find */
+static struct elem *ro_find(int t, int key, const void **parp, const char *statecls)
+{
+    const void *par = (const void *)&cmp_token;
+    struct elem *r;
+    probe->key = key;
+    vrt_state(statecls);
+    VRT_OP3(is_rb ? "rbtree.find" : "bintree.find", "t%ld k%ld par%ld", t, key, parp != NULL);
+    r = (struct elem *)t_find(t, probe, parp != NULL ? &par : NULL);
+    if (cnt[t][key + 1] == 0) {
+        VRT_CHECK(r == NULL, TK("find.phantom"), "find(k%d) returned %p, no held element has that key", key, (void *)r);
+    } else {
+        VRT_CHECK(r != NULL, TK("find.missed"), "find(k%d) returned NULL, %d held elements have that key", key, cnt[t][key + 1]);
+        VRT_CHECK(is_elem(r) && HELD(r, t), TK("find.not-held"), "find(k%d) returned a pointer that is not a held element", key);
+        VRT_CHECK(r->key == key, TK("find.wrong-key"), "find(k%d) returned e%d with key %d", key, r->id, r->key);
+    }
+    if (parp != NULL) {
+        VRT_CHECK(par != (const void *)&cmp_token, TK("find.par-not-written"), "find did not store the parent");
+        check_par(t, par, r ? "hit" : "miss");
+        *parp = par;
+    }
+    VRT_COUNT("op.find");
+    return r;
+}
+static void ro_height(int t)
+{
+    size_t mn = 0, mx = 0;
+    VRT_OP1(is_rb ? "rbtree.height" : "bintree.height", "t%ld", t);
+    if (is_rb) cstl_rbtree_height(RT[t], &mn, &mx); else cstl_bintree_height(BT[t], &mn, &mx);
+}
+
+/* ---- read-only re-entrancy (C01) ----
+ * Nothing in the headers forbids a visitor to look at the tree it is shown: it asks for the size, searches another
+ * key, measures the height, runs a traversal of its own in either direction -- on the tree being traversed or on the
+ * other tree of the case.  The inner traversal has a visitor and a priv of its own and is checked on its own terms;
+ * the outer one is held to the ordinary oracle (every element once, brackets, order, stop value). */
+struct nest { int t, rev, n, stop_at, stop_val, stopped, nmid, lastkey, have_last; };
+static struct nest *cur_nest;
+static int nest_cb(const void *ev, cstl_bintree_visit_order_t ord, void *p)
+{
+    struct nest *w = p;
+    const struct elem *x = ev;
+    VRT_CHECK(p == (void *)cur_nest && cur_nest != NULL, TK("foreach.nested.visitor-outside-its-traversal"),
+              "the visitor of a traversal started from inside another visitor was called with priv %p while %s", p,
+              cur_nest ? "its traversal runs with another priv" : "its traversal is not running");
+    VRT_CHECK(!w->stopped, TK("foreach.nested.continued-after-stop"), "nested traversal made callback #%d after it was stopped at #%d",
+              w->n, w->stop_at);
+    VRT_CHECK(is_elem(x) && HELD(x, w->t), TK("foreach.nested.non-member"),
+              "nested traversal visited something that is not a held element of tree %d", w->t);
+    if (ord == CSTL_BINTREE_VISIT_ORDER_MID || ord == CSTL_BINTREE_VISIT_ORDER_LEAF) {
+        if (w->have_last)
+            VRT_CHECK(w->rev ? x->key <= w->lastkey : x->key >= w->lastkey, TK("foreach.nested.order"),
+                      "nested %s traversal presents key %d after key %d", w->rev ? "REV" : "FWD", x->key, w->lastkey);
+        w->lastkey = x->key; w->have_last = 1; w->nmid++;
+    }
+    if (w->n++ == w->stop_at) { w->stopped = 1; return w->stop_val; }
+    return 0;
+}
+static void reent_action(const struct trav *w, const struct elem *x)
+{
+    const unsigned s = reent.salt + 13u * (unsigned)reent.done;
+    const int t2 = (ntrees == 2 && (s & 1)) ? !w->t : w->t;
+    int act = (int)((s >> 1) % 6), k;
+    reent.done++;
+    if (act == 2 && Mn[t2] > 48) act = 0;       /* height is quadratic on a spine */
+    switch (act) {
+    case 0:
+        VRT_OP1(is_rb ? "rbtree.size" : "bintree.size", "t%ld (from a visitor)", t2);
+        VRT_CHECK(t_size(t2) == (size_t)Mn[t2], TK("size"), "tree %d: size %zu asked from inside a visitor, %d held", t2, t_size(t2), Mn[t2]);
+        VRT_COUNT("reent.size");
+        break;
+    case 1: {
+        /* another key than the one being shown: absent ones (-1, nkeys) included */
+        const void *par;
+        k = (int)((s >> 4) % (unsigned)(nkeys + 2)) - 1;
+        if (k == x->key) k = k < nkeys ? k + 1 : -1;
+        ro_find(t2, k, (s & 8) ? &par : NULL, "from-visitor");
+        VRT_COUNT("reent.find");
+        break;
+    }
+    case 2:
+        vrt_state("from-visitor");
+        ro_height(t2);
+        VRT_COUNT("reent.height");
+        break;
+    default: {
+        struct nest nw, *prev = cur_nest;
+        int r;
+        memset(&nw, 0, sizeof(nw));
+        nw.t = t2; nw.rev = act == 3 ? w->rev : !w->rev;
+        /* small trees completely, larger ones mostly up to an early stop */
+        nw.stop_at = (Mn[t2] <= 16 || (s & 0x300) == 0) && !(s & 0x40) ? -1 : (int)((s >> 4) % 12);
+        nw.stop_val = vrt_stop_value(s * 29u + 5u);
+        vrt_state("from-visitor");
+        VRT_OP4(is_rb ? "rbtree.foreach" : "bintree.foreach", "t%ld dir%ld stop@%ld val%ld (from a visitor)", t2, nw.rev, nw.stop_at, nw.stop_val);
+        cur_nest = &nw;
+        r = t_foreach(t2, nest_cb, &nw, nw.rev);
+        cur_nest = prev;
+        if (nw.stopped) {
+            VRT_CHECK(r == nw.stop_val, TK("foreach.nested.stop-value"), "nested traversal returned %d, its visitor stopped it with %d", r, nw.stop_val);
+            VRT_COUNT("reent.foreach.early-stop");
+        } else {
+            VRT_CHECK(r == 0, TK("foreach.nested.ret-nonzero"), "nested traversal returned %d although every visit returned 0", r);
+            VRT_CHECK(nw.nmid == Mn[t2], TK("foreach.nested.count"), "nested traversal presented %d elements, %d are held", nw.nmid, Mn[t2]);
+            VRT_COUNT("reent.foreach.completed");
+        }
+        if (nw.rev == w->rev) VRT_COUNT("reent.foreach.same-direction"); else VRT_COUNT("reent.foreach.other-direction");
+        if (t2 == w->t) VRT_COUNT("reent.foreach.same-tree");
+        break;
+    }
+    }
+    if (t2 != w->t) VRT_COUNT("reent.other-tree"); else VRT_COUNT("reent.same-tree");
+    /* back in the outer traversal */
+    vrt_state("re-entered");
+    VRT_OP2(is_rb ? "rbtree.foreach" : "bintree.foreach", "t%ld dir%ld (continues after a read-only call made by its visitor)", w->t, w->rev);
+    OP_BEGIN("foreach");
+}
+/* a monitored traversal whose visitor makes up to `calls` read-only calls, the first at callback index `at` */
+static int do_foreach_reent(int t, int rev, int stop_at, int stop_val, unsigned salt, int calls)
+{
+    const int ncb = 3 * Mn[t];
+    int n;
+    reent.on = 1; reent.salt = salt; reent.done = 0; reent.left = calls;
+    reent.at = ncb > 0 ? (int)((salt >> 3) % (unsigned)(ncb > 24 && !(salt & 4) ? 24 : ncb)) : 0;
+    if (stop_at >= 0 && reent.at > stop_at) reent.at = stop_at;          /* the stopping callback itself may be the one */
+    reent.gap = 1 + (int)((salt >> 9) % 5);
+    n = do_foreach(t, rev, stop_at, stop_val);
+    reent.on = 0;
+    if (reent.done > 0) VRT_COUNT("reent.traversals");
+    return n;
+}
+
+/* ---- hints that are not from the last find ----
+ * The parent reported by find stays the right place to start an insert of that key for as long as the tree is not
+ * changed.  After find(k1) -> h1 the caller takes hints for one or two more keys (with and without the par
+ * out-parameter, held and absent keys, preferably a key whose search ends under the same node as k1's but on its other
+ * side), looks at the tree (find, size, height, traversals; the other tree as well) and then inserts k1 under h1.
+ * One insert per batch: it invalidates the other hints. */
+/* where a search for `key` ends: the parent and the side (0 left, 1 right) of the empty slot, or of the first match.
+ * Read from the header-visible links to steer the generator, never an oracle. */
+static const struct cstl_bintree_node *predict_slot(int t, int key, int *side)
+{
+    const struct cstl_bintree_node *n = bt_of(t)->root, *p = NULL;
+    int guard = Mn[t] + 1;
+    *side = -1;
+    while (n != NULL && guard-- > 0) {
+        const int k = elem_of(n, cls[t])->key;
+        if (key == k) break;
+        p = n; *side = key < k ? 0 : 1;
+        n = *side ? n->r : n->l;
+    }
+    return p;
+}
+static void hint_batch(int t, int k1, const void *h1, unsigned s)
+{
+    const void *h2 = NULL, *h3 = NULL;
+    int k2 = INT_MIN, k3, s1, s2, i, nro;
+    const int present = cnt[t][k1 + 1] > 0;
+    VRT_COUNT("hint.batch");
+    if (present) VRT_COUNT("hint.batch.key-present"); else VRT_COUNT("hint.batch.key-absent");
+    if (h1 == NULL) VRT_COUNT("hint.batch.null-hint");
+    /* k2: an absent key whose empty slot hangs under the same node as h1, on the other side than k1's slot */
+    if (h1 != NULL) {
+        const struct cstl_bintree_node *p1 = predict_slot(t, k1, &s1);
+        if (p1 != NULL && elem_of(p1, cls[t]) == (const struct elem *)h1) {
+            const int pk = ((const struct elem *)h1)->key;
+            const int cand[4] = { s1 ? pk - 1 : pk + 1, s1 ? k1 - 1 : k1 + 1, pk - 1, pk + 1 };
+            for (i = 0; i < 4 && k2 == INT_MIN; i++) {
+                if (cand[i] < -1 || cand[i] > nkeys || cand[i] == k1 || cnt[t][cand[i] + 1] > 0) continue;
+                if (predict_slot(t, cand[i], &s2) == p1 && s2 != s1) k2 = cand[i];
+            }
+        }
+    }
+    if (k2 != INT_MIN) {
+        if (present) VRT_COUNT("hint.batch.other-slot-of-the-hint.key-present"); else VRT_COUNT("hint.batch.same-leaf-other-side");
+    } else {
+        k2 = (int)((s >> 2) % (unsigned)(nkeys + 2)) - 1;
+    }
+    ro_find(t, k2, (s & 1) ? &h2 : NULL, "hint-batch");
+    if (s & 2) {
+        k3 = (int)((s >> 8) % (unsigned)(nkeys + 2)) - 1;
+        ro_find(t, k3, (s & 0x40) ? &h3 : NULL, "hint-batch");
+        VRT_COUNT("hint.batch.three-hints");
+    }
+    if (!(s & 1) || ((s & 2) && !(s & 0x40))) VRT_COUNT("hint.batch.find-without-par");
+    /* looking at the tree changes nothing */
+    nro = (int)((s >> 14) % 3);
+    for (i = 0; i < nro; i++) {
+        const unsigned a = (s >> (16 + 4 * i)) % 6;
+        const int t2 = (ntrees == 2 && (a & 1)) ? !t : t;
+        switch (a >> 1) {
+        case 0:
+            VRT_OP1(is_rb ? "rbtree.size" : "bintree.size", "t%ld (hint batch)", t2);
+            VRT_CHECK(t_size(t2) == (size_t)Mn[t2], TK("size"), "tree %d: size %zu, %d inserted and not removed", t2, t_size(t2), Mn[t2]);
+            VRT_COUNT("hint.batch.then.size");
+            break;
+        case 1:
+            if (Mn[t2] <= 48) { vrt_state("hint-batch"); ro_height(t2); VRT_COUNT("hint.batch.then.height"); break; }
+            /* fall through */
+        default:
+            if (mode == MODE_RB) {      /* traversals are C01's */
+                ro_find(t2, (int)((s >> 5) % (unsigned)(nkeys + 2)) - 1, NULL, "hint-batch");
+            } else {
+                const int lim = Mn[t2] <= 12 ? -1 : (int)((s >> 7) % 9);
+                do_foreach(t2, (int)(s >> 13) & 1, lim, stop_value(lim));
+                VRT_COUNT("hint.batch.then.foreach");
+            }
+            break;
+        }
+        if (t2 != t) VRT_COUNT("hint.batch.then.other-tree");
+    }
+    if (nro == 0) VRT_COUNT("hint.batch.finds-only");
+}
+/* the element inserted under the old hint must be where a search finds it: every ancestor on the correct side */
+static void hint_batch_after(int t, const struct elem *e)
+{
+    const struct cstl_bintree_node *n = &e->rn[cls[t]].n;
+    int guard = Mn[t] + 1;
+    for (; n->p != NULL && guard-- > 0; n = n->p) {
+        const struct elem *pe = elem_of(n->p, cls[t]);
+        VRT_CHECK(is_elem(pe) && HELD(pe, t), TK("insert.old-hint.ancestor-not-member"), "an ancestor of the inserted e%d is not a held element", e->id);
+        VRT_CHECK(n->p->l == n || n->p->r == n, TK("insert.old-hint.parent-link"), "e%d is not a child of the node its parent link names", elem_of(n, cls[t])->id);
+        VRT_CHECK(n->p->l == n ? e->key <= pe->key : e->key >= pe->key, TK("insert.old-hint.misplaced"),
+                  "e%d (key %d) inserted under a hint taken earlier (tree unchanged since) hangs on the %s of e%d (key %d)",
+                  e->id, e->key, n->p->l == n ? "left" : "right", pe->id, pe->key);
+    }
+    VRT_CHECK(n == bt_of(t)->root, TK("insert.old-hint.unreachable"), "the parent links of the inserted e%d do not lead to the root", e->id);
+    ro_find(t, e->key, NULL, "after-old-hint");
+}
+
+static int in_closure;
 static int st_apply(uint32_t op, int audit);
 static int st_apply_inner(uint32_t op, int audit)
 {
     const int kind = OP_KIND(op), t = OP_T(op), flag = OP_FLAG(op), val = OP_VAL(op);
     struct elem *e, *r;
     const void *par;
-    int key, i;
+    int key, i, batch = 0;
+    unsigned salt;
 
     if (t >= ntrees) return 0;
     OP_BEGIN(kind == K_INSERT ? "insert" : kind == K_FIND ? "find" : kind == K_ERASE ? "erase" : kind == K_CLEAR ? "clear" :
@@ -763,6 +1035,12 @@ static int st_apply_inner(uint32_t op, int audit)
             VRT_COUNT("op.find");
             if (par == NULL) VRT_COUNT("op.insert.hinted.null-hint");
             VRT_COUNT("op.insert.hinted");
+            /* every second hint (every fourth in the long histories) is not used at once: more hints are taken and read-only
+             * calls made first (tree unchanged) */
+            salt = tick_hash();
+            if ((salt & 1) && (in_closure || (salt & 2)) && (Mn[t] <= 1024 || (salt >> 28) == 0)) {     /* rarely on the deep spines: O(depth) a step */
+                batch = 1; hint_batch(t, key, par, salt >> 2); OP_BEGIN("insert");
+            }
         }
         if (mode == MODE_RB) classify_insert(t, key);
         vrt_state(Mn[t] ? "nonempty" : "empty");
@@ -770,6 +1048,7 @@ static int st_apply_inner(uint32_t op, int audit)
                 par ? ((const struct elem *)par)->id : -1);
         t_insert(t, e, (void *)par);
         model_add(t, e);
+        if (batch) hint_batch_after(t, e);
         if (cnt[t][key + 1] > 1) VRT_COUNT("op.insert.duplicate-key");
         VRT_COUNT("op.insert");
         break;
@@ -866,7 +1145,10 @@ static int st_apply_inner(uint32_t op, int audit)
         break;
     }
     case K_FOREACH:
-        do_foreach(t, flag, val - 1, stop_value(val - 1));
+        /* every second traversal of a history has a visitor that makes read-only calls itself (traversals are C01's) */
+        salt = tick_hash();
+        if (mode != MODE_RB && (salt & 1)) do_foreach_reent(t, flag, val - 1, stop_value(val - 1), salt >> 1, 1 + (int)((salt >> 20) % 3));
+        else do_foreach(t, flag, val - 1, stop_value(val - 1));
         VRT_COUNT("op.foreach");
         return 1;
     default:
@@ -953,6 +1235,12 @@ static void probe_observe(void)
             for (s = 0; s < total; s++) do_foreach(t, rev, s, stop_value(s));
             /* a stop index beyond the last callback: the run must complete and return 0 */
             do_foreach(t, rev, total, stop_value(total));
+            /* the visitor looks at the tree(s) itself, at callback indices and with calls that move on from state to state */
+            if (mode == MODE_ORDER && total > 0) {
+                const unsigned salt = tick_hash();
+                do_foreach_reent(t, rev, -1, 0, salt, 2);
+                if ((salt & 0x30000) == 0) { s = (int)((salt >> 18) % (unsigned)total); do_foreach_reent(t, rev, s, stop_value(s), salt >> 3, 1); }
+            }
         }
     }
     VRT_COUNT("probe.observe");
@@ -1085,6 +1373,7 @@ static void run_closure(int ci)
                   mode == MODE_CLEAR ? " +clear probe in every state" : mode == MODE_ORDER ? " +find/foreach sweep in every state" : "");
     model.nprobes = mode == MODE_RB ? 0 : 1;
     cmp_scale = 1 + 1000 * (ci & 1);
+    in_closure = 1;
     vex_closure(&model, SCOPE(s->rb, s->nt, s->nk, s->np) | (s->mixed ? SCOPE_MIXED : 0), al, n, s->max_states, s->max_depth, &r);
     VRT_COUNT_N("closure.states", r.states);
     VRT_COUNT_N("closure.transitions", r.transitions);
@@ -1348,7 +1637,351 @@ static void run_random_clear(uint64_t idx)
     VRT_COUNT("random.clear-large");
 }
 
+/* ---- large monotone fills of the red-black tree ----
+ * 2^18 + 5000.. (thorough 2^20 + 5000..) distinct keys inserted strictly descending, strictly ascending, alternating
+ * from both ends inward, or in long descending runs: the flank that takes every insert gets deeper than 32 nodes
+ * (counted), which no random fill of <= 4096 elements reaches.  Every other insert is hinted, every fourth with a hint
+ * that is older than the last find.  Checked at every power of two, after the fill, at every power of two of the drain
+ * (half of the elements, from the deep end) and at the end -- mode rb: the red-black rules walker, parent links, node
+ * count, cstl_rbtree_height and its bound; mode order: size, an order/parent-link/count walker with an explicit stack,
+ * finds of held and absent keys, one complete traversal after the fill (FWD) and one after the drain (REV).  Keys are
+ * even numbers, so an absent key exists between any two neighbours.  Elements are private to these cases (own
+ * comparator and priv), individually allocated, poisoned and freed when erased. */
+#define BMAGIC 0xb16e1e57u
+struct belem {
+    uint32_t magic;
+    int key, held;
+    uint32_t stamp;
+    uint64_t pad0;
+    struct cstl_rbtree_node rn;
+    uint64_t pad1;
+};
+struct bframe { const struct cstl_bintree_node *n, *par; int lo, hi; };
+static struct belem **BE;               /* by key: even = the monotone fill, odd = in-between keys added after it */
+static struct belem *big_probe;
+static struct cstl_rbtree *BIGT;
+static struct bframe *big_stk;
+static int big_n, big_held, big_token, big_deep_flank;
+static inline struct belem *belem_of(const struct cstl_bintree_node *n)
+{
+    return (struct belem *)((char *)n - offsetof(struct belem, rn.n));
+}
+static int big_member(const struct belem *e)
+{
+    return e != NULL && e->magic == BMAGIC && e->key >= 0 && e->key < 2 * big_n && BE[e->key] == e && e->held;
+}
+static int cmp_big(const void *a, const void *b, void *p)
+{
+    const struct belem *x = a, *y = b;
+    VRT_CHECK(p == (void *)&big_token, "rbtree.cmp.priv", "comparison called with wrong priv %p", p);
+    VRT_CHECK(x->magic == BMAGIC && y->magic == BMAGIC, "rbtree.cmp.non-element", "comparison called with a non-element");
+    return x->key < y->key ? -cmp_scale : x->key > y->key ? cmp_scale : 0;
+}
+/* mode order: order, parent links, count; explicit stack (C01 says nothing about the depth of the tree) */
+static void big_walk_order(void)
+{
+    const uint32_t stamp = ++stamp_ctr;
+    const struct cstl_bintree_node *n = BIGT->t.root, *par = NULL;
+    int sp = 0, lo = -1, hi = 2 * big_n, count = 0;
+    for (;;) {
+        struct belem *e;
+        if (n == NULL) {
+            if (sp == 0) break;
+            sp--; n = big_stk[sp].n; par = big_stk[sp].par; lo = big_stk[sp].lo; hi = big_stk[sp].hi;
+        }
+        count++;
+        VRT_CHECK(count <= big_held, "rbtree.walker.count", "more than %d nodes reachable from the root", big_held);
+        e = belem_of(n);
+        VRT_CHECK(big_member(e), "rbtree.walker.non-member", "reachable node is not a held element");
+        VRT_CHECK(e->stamp != stamp, "rbtree.walker.node-twice", "key %d reachable along two paths", e->key);
+        e->stamp = stamp;
+        VRT_CHECK(n->p == par, "rbtree.walker.parent-link", "key %d: parent link does not point at its parent", e->key);
+        VRT_CHECK(lo < e->key && e->key < hi, "rbtree.walker.bst-order", "key %d outside (%d,%d) demanded by its ancestors", e->key, lo, hi);
+        if (n->r != NULL) { big_stk[sp].n = n->r; big_stk[sp].par = n; big_stk[sp].lo = e->key; big_stk[sp].hi = hi; sp++; }
+        hi = e->key; par = n; n = n->l;
+    }
+    VRT_CHECK(count == big_held, "rbtree.walker.count", "%d nodes reachable from the root, %d held", count, big_held);
+}
+/* mode rb: the rules; a path of more than 200 nodes is beyond 2*log2(n+1) for any n these cases reach */
+struct bwk { int count, maxd; uint32_t stamp; };
+static int big_walk_rules(const struct cstl_bintree_node *n, const struct cstl_bintree_node *par, int depth, struct bwk *w)
+{
+    struct belem *e;
+    int bl, br, c;
+    if (n == NULL) return 0;
+    VRT_CHECK(depth <= 200, "rbtree.height.bound", "a path of more than 200 nodes in a tree of %d elements", big_held);
+    w->count++;
+    VRT_CHECK(w->count <= big_held, "rbtree.rules.count", "more than %d nodes reachable from the root", big_held);
+    e = belem_of(n);
+    VRT_CHECK(big_member(e), "rbtree.rules.non-member", "reachable node is not a held element");
+    VRT_CHECK(e->stamp != w->stamp, "rbtree.rules.node-twice", "key %d reachable along two paths", e->key);
+    e->stamp = w->stamp;
+    VRT_CHECK(n->p == par, "rbtree.rules.parent-link", "key %d (depth %d): parent link does not point at its parent", e->key, depth);
+    if (depth > w->maxd) w->maxd = depth;
+    c = col(n);
+    VRT_CHECK(c == RED || c == BLACK, "rbtree.rules.colour-invalid", "key %d colour field %d", e->key, c);
+    if (c == RED) {
+        VRT_CHECK(n->l == NULL || col(n->l) != RED, "rbtree.rules.red-red", "red key %d has a red left child", e->key);
+        VRT_CHECK(n->r == NULL || col(n->r) != RED, "rbtree.rules.red-red", "red key %d has a red right child", e->key);
+    }
+    bl = big_walk_rules(n->l, n, depth + 1, w);
+    br = big_walk_rules(n->r, n, depth + 1, w);
+    VRT_CHECK(bl == br, "rbtree.rules.black-height", "key %d (depth %d): %d blacks down to a missing child on the left, %d on the right",
+              e->key, depth, bl, br);
+    return bl + (c == BLACK);
+}
+static struct belem *big_find(int key, int with_par)
+{
+    const void *par = (const void *)&big_token;
+    const struct belem *r;
+    const int held = key >= 0 && key < 2 * big_n && BE[key] != NULL && BE[key]->held;
+    big_probe->key = key;
+    OP_BEGIN("find");
+    vrt_state(held ? "present" : "absent");
+    VRT_OP2("rbtree.find", "k%ld par%ld (big)", key, with_par);
+    r = cstl_rbtree_find(BIGT, big_probe, with_par ? &par : NULL);
+    if (!held) VRT_CHECK(r == NULL, "rbtree.find.phantom", "find(k%d) returned %p, no held element has that key", key, (const void *)r);
+    else {
+        VRT_CHECK(r != NULL, "rbtree.find.missed", "find(k%d) returned NULL, the key is held", key);
+        VRT_CHECK(big_member(r), "rbtree.find.not-held", "find(k%d) returned a pointer that is not a held element", key);
+        VRT_CHECK(r->key == key, "rbtree.find.wrong-key", "find(k%d) returned an element with key %d", key, r->key);
+    }
+    if (with_par) {
+        VRT_CHECK(par != (const void *)&big_token, "rbtree.find.par-not-written", "find did not store the parent");
+        VRT_CHECK(par == NULL || big_member(par), "rbtree.find.par-not-member", "find reported a parent that is not a held element");
+    }
+    VRT_COUNT("op.find");
+    return (struct belem *)par;
+}
+struct btrav { int rev, npre, nmid, npost, nleaf, last, have; };
+static int big_visit(const void *ev, cstl_bintree_visit_order_t ord, void *p)
+{
+    struct btrav *w = p;
+    const struct belem *x = ev;
+    VRT_CHECK(big_member(x), "rbtree.foreach.non-member", "traversal visited something that is not a held element");
+    if (ord == CSTL_BINTREE_VISIT_ORDER_PRE) w->npre++;
+    else if (ord == CSTL_BINTREE_VISIT_ORDER_POST) w->npost++;
+    else {
+        if (ord == CSTL_BINTREE_VISIT_ORDER_MID) w->nmid++; else w->nleaf++;
+        if (w->have) {
+            if (w->rev) VRT_CHECK(x->key < w->last, "rbtree.foreach.rev.order", "REV traversal presents key %d after key %d", x->key, w->last);
+            else VRT_CHECK(x->key > w->last, "rbtree.foreach.fwd.order", "FWD traversal presents key %d after key %d", x->key, w->last);
+        }
+        w->last = x->key; w->have = 1;
+    }
+    return 0;
+}
+static void big_traverse(int rev)
+{
+    struct btrav w;
+    int r;
+    memset(&w, 0, sizeof(w));
+    w.rev = rev;
+    OP_BEGIN("foreach");
+    vrt_state("full");
+    VRT_OP1("rbtree.foreach", "dir%ld (big)", rev);
+    r = cstl_rbtree_foreach(BIGT, big_visit, &w, rev ? CSTL_BINTREE_FOREACH_DIR_REV : CSTL_BINTREE_FOREACH_DIR_FWD);
+    VRT_CHECK(r == 0, "rbtree.foreach.ret-nonzero", "traversal returned %d although every visit returned 0", r);
+    VRT_CHECK(w.nmid + w.nleaf == big_held, "rbtree.foreach.count", "%s traversal presented %d elements (MID+LEAF), %d are held",
+              rev ? "REV" : "FWD", w.nmid + w.nleaf, big_held);
+    VRT_CHECK(w.npre == w.nmid && w.npost == w.nmid, "rbtree.foreach.bracket", "traversal made %d PRE, %d MID, %d POST visits", w.npre, w.nmid, w.npost);
+    if (rev) VRT_COUNT("op.foreach.rev"); else VRT_COUNT("op.foreach.fwd");
+}
+static void big_check(int lowrank, int highrank)
+{
+    const struct cstl_bintree_node *n;
+    int fl = 0, fr = 0, guard;
+    for (n = BIGT->t.root, guard = big_held; n != NULL && guard-- > 0; n = n->l) fl++;
+    for (n = BIGT->t.root, guard = big_held; n != NULL && guard-- > 0; n = n->r) fr++;
+    VRT_MAX("max.big.flank-depth", fl > fr ? fl : fr);
+    if (fl > 32 || fr > 32) big_deep_flank = 1;
+    if (mode == MODE_RB) {
+        struct bwk w;
+        size_t mn = 0, mx = 0;
+        const size_t cnt_ = (size_t)big_held;
+        memset(&w, 0, sizeof(w));
+        w.stamp = ++stamp_ctr;
+        if (BIGT->t.root != NULL)
+            VRT_CHECK(col(BIGT->t.root) == BLACK, "rbtree.rules.red-root", "root is not black (colour %d)", col(BIGT->t.root));
+        big_walk_rules(BIGT->t.root, NULL, 1, &w);
+        VRT_CHECK(w.count == big_held, "rbtree.rules.count", "%d nodes reachable from the root, %d held", w.count, big_held);
+        VRT_CHECK(cstl_rbtree_size(BIGT) == cnt_, "rbtree.rules.count", "size %zu, %zu held", cstl_rbtree_size(BIGT), cnt_);
+        OP_BEGIN("height");
+        VRT_OP0("rbtree.height", "(big)");
+        cstl_rbtree_height(BIGT, &mn, &mx);
+        VRT_CHECK(mx == (size_t)w.maxd, "rbtree.height.max-mismatch",
+                  "cstl_rbtree_height max %zu, longest root-to-leaf path walked %d (n=%zu)", mx, w.maxd, cnt_);
+        VRT_CHECK(mx < 62 && ((uint64_t)1 << mx) <= (uint64_t)(cnt_ + 1) * (cnt_ + 1), "rbtree.height.bound",
+                  "height %zu exceeds 2*log2(n+1) for n=%zu", mx, cnt_);
+        VRT_MAX("max.rb.height", mx);
+        VRT_MAX("max.rb.size-audited", cnt_);
+        VRT_COUNT("audit.rb-rules");
+    } else {
+        VRT_CHECK(cstl_rbtree_size(BIGT) == (size_t)big_held, "rbtree.size", "size %zu, %d inserted and not removed", cstl_rbtree_size(BIGT), big_held);
+        big_walk_order();
+        /* the ends of the held range, a key between two held ones, keys below and above everything */
+        big_find(2 * lowrank, 0); big_find(2 * highrank, 1);
+        big_find(2 * lowrank + 1, 1); big_find(2 * highrank - 1, 0);
+        big_find(-1, 1); big_find(2 * big_n, 0);
+        big_find(2 * (lowrank + (highrank - lowrank) / 2), 1);      /* held or already erased: the model knows */
+        VRT_COUNT("audit.tree");
+    }
+    VRT_MAX("max.big.size-audited", big_held);
+    VRT_COUNT("big.checkpoints");
+}
+#define BIG_ZIG 16
+/* one insert of the big cases: i & 1 hinted, i & 2 with a hint that is not from the last find */
+static void big_insert(int key, int i, vrt_rng *g)
+{
+    struct belem *e = vrt_alloc(sizeof(*e)), *hint = NULL;
+    const struct cstl_bintree_node *c;
+    int turns = 0, lefts = 0, guard;
+    memset(e, 0x5e, sizeof(*e));
+    e->magic = BMAGIC; e->key = key; e->held = 0; e->stamp = 0;
+    BE[key] = e;
+    /* evidence: how long is the way down, and does it turn both ways */
+    for (c = BIGT->t.root, guard = 4096; c != NULL && guard-- > 0; turns++) {
+        if (key < belem_of(c)->key) { lefts++; c = c->l; } else c = c->r;
+    }
+    VRT_MAX("max.big.insert-path-turns", turns);
+    if (turns > 32) {
+        VRT_COUNT("big.insert.path-of-more-than-32-turns");
+        if (lefts != 0 && lefts != turns) VRT_COUNT("big.insert.path-of-more-than-32-turns.both-ways");
+    }
+    if (i & 1) {
+        /* documented protocol: the parent reported by find, tree unchanged since */
+        hint = big_find(key, 1);
+        if (i & 2) {
+            /* not the last find: the absent key just above the hint's own (the other side of the same leaf when the
+             * hint is the lower neighbour), then a key far away, with and without par */
+            if (hint != NULL) big_find(hint->key + ((hint->key & 1) ? 2 : 1), (i >> 2) & 1);
+            big_find(2 * (int)vrt_below(g, (uint32_t)big_n) + ((i >> 3) & 1), !((i >> 2) & 1));
+            VRT_CHECK(cstl_rbtree_size(BIGT) == (size_t)big_held, "rbtree.size", "size %zu, %d inserted and not removed",
+                      cstl_rbtree_size(BIGT), big_held);
+            VRT_COUNT("hint.batch");
+            VRT_COUNT("hint.batch.key-absent");
+        }
+        VRT_COUNT("op.insert.hinted");
+        VRT_COUNT("op.insert.hinted.key-absent");
+    }
+    OP_BEGIN("insert");
+    vrt_state(big_held ? "nonempty" : "empty");
+    VRT_OP3("rbtree.insert", "k%ld hint=%ld (big #%ld)", key, hint ? hint->key : -1, i);
+    cstl_rbtree_insert(BIGT, e, hint);
+    e->held = 1; big_held++;
+    if (hint != NULL && mode != MODE_RB) {
+        /* the new element hangs on the correct side of every ancestor */
+        for (c = &e->rn.n, guard = 4096; c->p != NULL && guard-- > 0; c = c->p)
+            VRT_CHECK(c->p->l == c ? key < belem_of(c->p)->key : c->p->r == c && key > belem_of(c->p)->key,
+                      (i & 2) ? "rbtree.insert.old-hint.misplaced" : "rbtree.insert.hinted.misplaced",
+                      "key %d inserted under the hint k%d is on the wrong side of ancestor key %d", key, hint->key, belem_of(c->p)->key);
+    }
+    VRT_COUNT("op.insert");
+}
+static const char *const big_pat[4] = { "descending", "ascending", "alternating-inward", "descending-runs" };
+static void run_big(uint64_t bi)
+{
+    const int pat = (int)(bi & 3);
+    vrt_rng g;
+    int n, i, runlen, lo, hi, nerase;
+    vrt_rng_seed(&g, vrt_seed, 0xB16000 + bi);
+    n = (vrt_thorough ? (1 << 20) : (1 << 18)) + 5000 + (int)vrt_below(&g, 256);
+    runlen = 4096 + (int)vrt_below(&g, 8192);
+    cmp_scale = vrt_chance(&g, 1, 2) ? 1 : 1 + (int)vrt_below(&g, 100000);
+    is_rb = 1; ntrees = 0; npool = 0;
+    vrt_case_note("big rbtree fill %s n=%d%s", big_pat[pat], n, pat == 3 ? " (runs of a few thousand)" : "");
+    big_n = n; big_held = 0; big_deep_flank = 0;
+    BE = vrt_zalloc(2 * (size_t)n * sizeof(BE[0]));
+    big_stk = vrt_alloc(((size_t)n + 3 * BIG_ZIG + 2) * sizeof(big_stk[0]));
+    big_probe = vrt_alloc(sizeof(*big_probe));
+    memset(big_probe, 0x5e, sizeof(*big_probe));
+    big_probe->magic = BMAGIC; big_probe->held = 0;
+    BIGT = vrt_alloc(sizeof(*BIGT));
+    memset(BIGT, 0x5e, sizeof(*BIGT));
+    if ((bi + vrt_seed) & 1) cstl_rbtree_init(BIGT, cmp_big, &big_token, offsetof(struct belem, rn));
+    else *BIGT = (struct cstl_rbtree)CSTL_RBTREE_INITIALIZER(struct belem, rn, cmp_big, &big_token);
+    lo = n; hi = -1;
+    for (i = 0; i < n; i++) {
+        int rank;
+        switch (pat) {
+        case 0: rank = n - 1 - i; break;
+        case 1: rank = i; break;
+        case 2: rank = (i & 1) ? i / 2 : n - 1 - i / 2; break;
+        default: {
+            const int base = i / runlen * runlen, len = n - base < runlen ? n - base : runlen;
+            rank = base + len - 1 - (i - base);
+            break;
+        }
+        }
+        big_insert(2 * rank, i, &g);
+        if (rank < lo) lo = rank;
+        if (rank > hi) hi = rank;
+        if ((big_held & (big_held - 1)) == 0) big_check(lo, hi);
+    }
+    big_check(lo, hi);
+    /* in-between (odd) keys below the deepest leaves at both ends and in the middle: paths of more than 32 turns that are
+     * not all to the same side */
+    for (i = 0; i < 3 * BIG_ZIG; i++) {
+        const int j = i / 3;
+        const int key = i % 3 == 0 ? 1 + 2 * j : i % 3 == 1 ? 2 * n - 3 - 2 * j : ((n - 1) | 1) + ((j & 1) ? 2 * (j / 2 + 1) : -2 * (j / 2));
+        big_insert(key, i, &g);
+        VRT_COUNT("big.in-between-inserts");
+    }
+    big_check(lo, hi);
+    if (mode != MODE_RB) big_traverse(0);
+    if (big_deep_flank) VRT_COUNT("big.flank-deeper-than-32");
+    vrt_sig(0, vrt_mix(vrt_mix(0xb16, (uint64_t)pat), (uint64_t)n));
+    /* drain half, starting where the tree is deepest */
+    nerase = n / 2;
+    for (i = 0; i < nerase; i++) {
+        int rank;
+        struct belem *e, *r;
+        switch (pat) {
+        case 0: rank = i; lo = i + 1; break;
+        case 1: rank = n - 1 - i; hi = rank - 1; break;
+        case 2: rank = (i & 1) ? n / 2 + (i + 1) / 2 : n / 2 - i / 2; break;
+        default: rank = 2 * i; if (i == 0) lo = 1; break;
+        }
+        e = BE[2 * rank];
+        big_probe->key = 2 * rank;
+        OP_BEGIN("erase");
+        vrt_state("present");
+        VRT_OP2("rbtree.erase", "k%ld (big drain #%ld)", 2 * rank, i);
+        r = cstl_rbtree_erase(BIGT, big_probe);
+        VRT_CHECK(r != NULL, "rbtree.erase.missed", "erase(k%d) returned NULL, the key is held", 2 * rank);
+        VRT_CHECK(r == e, "rbtree.erase.wrong-element", "erase(k%d) returned a pointer that is not the one element with that key", 2 * rank);
+        big_held--;
+        BE[2 * rank] = NULL;
+        memset(e, 0xa5, sizeof(*e));
+        vrt_free(e);
+        VRT_CHECK(cstl_rbtree_size(BIGT) == (size_t)big_held, "rbtree.erase.size", "size %zu after erase, %d held", cstl_rbtree_size(BIGT), big_held);
+        VRT_COUNT("op.erase");
+        if ((i & 1023) == 1023) {
+            /* gone is gone */
+            OP_BEGIN("erase");
+            vrt_state("absent");
+            VRT_OP1("rbtree.erase", "k%ld (erased before)", 2 * rank);
+            r = cstl_rbtree_erase(BIGT, big_probe);
+            VRT_CHECK(r == NULL, "rbtree.erase.phantom", "erase(k%d) returned %p, no held element has that key", 2 * rank, (void *)r);
+            VRT_COUNT("op.erase.absent");
+        }
+        if (((i + 1) & i) == 0) big_check(lo, hi);
+    }
+    big_check(lo, hi);
+    if (mode != MODE_RB) big_traverse(1);
+    /* teardown without the library */
+    for (i = 0; i < 2 * n; i++) if (BE[i] != NULL) vrt_free(BE[i]);
+    vrt_free(BE); BE = NULL;
+    vrt_free(big_stk); big_stk = NULL;
+    vrt_free(big_probe); big_probe = NULL;
+    vrt_free(BIGT); BIGT = NULL;
+    VRT_COUNT("big.cases");
+    vrt_count_dyn(pat == 0 ? "big.fill.descending" : pat == 1 ? "big.fill.ascending" : pat == 2 ? "big.fill.alternating-inward" :
+                  "big.fill.descending-runs", 1);
+}
+
 static int ndeep(void);
+static int nbig(void);
 static uint64_t nrandom(void)
 {
     if (mc_mode) return mode == MODE_CLEAR ? 64 : 3000;
@@ -1389,7 +2022,11 @@ static void setup_mode(void)
 static uint64_t ncases(void)
 {
     setup_mode();
-    return nscopes + ndeep() + nrandom();
+    return nscopes + ndeep() + nbig() + nrandom();
+}
+static int nbig(void)
+{
+    return (mc_mode || mode == MODE_CLEAR) ? 0 : 4;
 }
 static int ndeep(void)
 {
@@ -1401,12 +2038,14 @@ static void run_case(uint64_t idx)
 {
     if (hang_seen) { VRT_COUNT("hang.cases-skipped-after-a-hang"); return; }
     case_running = 1;
+    reent.on = 0; cur_trav = NULL; cur_nest = NULL; in_closure = 0;     /* a case abandoned inside a visitor leaves them set */
     /* none of these containers ever needs memory: every second case runs with an allocator that refuses everything */
     if (idx & 1) { vrt_fp_arm(NULL, 0, 1); VRT_COUNT("nomem.cases"); }
     if (idx < (uint64_t)nscopes) run_closure((int)idx);
     else if (idx < (uint64_t)(nscopes + ndeep())) run_deep(idx - nscopes);
-    else if (mode == MODE_CLEAR) run_random_clear(idx - nscopes - ndeep());
-    else run_random(idx - nscopes - ndeep());
+    else if (idx < (uint64_t)(nscopes + ndeep() + nbig())) run_big(idx - nscopes - ndeep());
+    else if (mode == MODE_CLEAR) run_random_clear(idx - nscopes - ndeep() - nbig());
+    else run_random(idx - nscopes - ndeep() - nbig());
     vrt_fp_disarm();
     case_running = 0;
 }
@@ -1432,7 +2071,17 @@ static const char *const required_order[] = {
     "erase.node.two-children.succ-deeper", "erase.node.leaf.root", "erase.node.one-child.root",
     "erase.node.two-children.succ-is-child.root", "erase.node.two-children.succ-deeper.root",
     "closure.states.bintree", "closure.states.rbtree", "random.histories.bintree", "random.histories.rbtree",
-    "probe.observe", "audit.tree", "deep.cases", "deep.trees-deeper-than-4096", NULL
+    "probe.observe", "audit.tree", "deep.cases", "deep.trees-deeper-than-4096",
+    /* hints older than the last find; read-only calls from inside a visitor; big monotone red-black fills */
+    "hint.batch", "hint.batch.key-absent", "hint.batch.key-present", "hint.batch.null-hint", "hint.batch.same-leaf-other-side",
+    "hint.batch.other-slot-of-the-hint.key-present", "hint.batch.three-hints", "hint.batch.find-without-par",
+    "hint.batch.then.size", "hint.batch.then.height", "hint.batch.then.foreach", "hint.batch.then.other-tree",
+    "reent.traversals", "reent.size", "reent.find", "reent.height", "reent.foreach.same-direction", "reent.foreach.other-direction",
+    "reent.foreach.same-tree", "reent.foreach.completed", "reent.foreach.early-stop", "reent.other-tree", "reent.same-tree",
+    "reent.outer.completed", "reent.outer.early-stop",
+    "big.cases", "big.checkpoints", "big.flank-deeper-than-32", "big.insert.path-of-more-than-32-turns",
+    "big.insert.path-of-more-than-32-turns.both-ways", "big.in-between-inserts", "big.fill.descending", "big.fill.ascending",
+    "big.fill.alternating-inward", "big.fill.descending-runs", NULL
 };
 static const char *const required_rb[] = {
     "op.insert", "op.insert.hinted", "op.insert.hinted.key-absent", "op.insert.hinted.key-present",
@@ -1444,7 +2093,12 @@ static const char *const required_rb[] = {
     "erase.rb.case.sibling-red", "erase.rb.case.nephews-black", "erase.rb.case.near-nephew-red-only",
     "erase.rb.case.far-nephew-red", "erase.rb.case.above-the-leaf",
     "erase.node.leaf", "erase.node.one-child", "erase.node.two-children.succ-is-child", "erase.node.two-children.succ-deeper",
-    "closure.states", "random.histories", NULL
+    "closure.states", "random.histories",
+    "hint.batch", "hint.batch.key-absent", "hint.batch.key-present", "hint.batch.same-leaf-other-side", "hint.batch.three-hints",
+    "hint.batch.then.size", "hint.batch.then.height",
+    "big.cases", "big.checkpoints", "big.flank-deeper-than-32", "big.insert.path-of-more-than-32-turns",
+    "big.insert.path-of-more-than-32-turns.both-ways", "big.in-between-inserts", "big.fill.descending", "big.fill.ascending",
+    "big.fill.alternating-inward", "big.fill.descending-runs", NULL
 };
 static const char *const required_clear[] = {
     "op.clear", "clear.handed-over", "probe.clear-then-reuse", "closure.states.bintree", "closure.states.rbtree",
